@@ -355,6 +355,11 @@ def judge_c02(d):
         return "exchange() returned Ok although not both directions ended cleanly (model: %s)" % model[:200]
     if model == "ok" and impl != "ok":
         return "both directions ended cleanly but exchange() returned %s" % impl
+    if impl.startswith("timedout") and (model == "running" or (model.startswith("timedout") and
+                                                               int(model.split()[1]) > int(impl.split()[1]))):
+        # bytes were still being handed over: the relay stops in the middle of the stream
+        return ("the tunnel was torn down by the idle timer (%s ms) while a chunk was still being delivered / the peer was not idle for the "
+                "timeout (model: %s): the relayed stream is cut short without an end of stream" % (impl.split()[1], model))
     if model.startswith("diverge"):
         T, ent = _pipe_log(q)
         for dr in ("0", "1"):
@@ -472,6 +477,10 @@ def judge_c10(d):
         return ("CONNECT through the real direct forwarder (allow_private_network_connections=%s, ipv6_available=%s) to %s was answered "
                 "[status X-Warning challenge X-Adguard-Vpn-Error] = [%s]; the documented answer for that destination is [%s] "
                 "(310 = non-routable, 311 = loopback, 300 = connection failed)" % (t[2], t[3], " ".join(t[4:]), impl, model))
+    if q.startswith("c10 socks "):
+        return ("CONNECT through the real SOCKS5 forwarder whose upstream answered the request with %s (RFC 1928 REP; closed = connection "
+                "closed, malformed = not a reply) was answered [status X-Warning challenge X-Adguard-Vpn-Error] = [%s]; the documented answer is "
+                "[%s] (301 = unreachable, 302 = timed out, 300 = connection failed)" % (q.split()[2], impl, model))
     ir, ie = _c10_parse(impl); mr, me = _c10_parse(model)
     if ir is None or mr is None or len(ir) != len(mr):
         return "number of responses differs from the number of requests"
@@ -711,7 +720,9 @@ PROPS = {
              "at once, the field boundaries 5/6/9/11/43/44, random ones) complete their handshake and a health check, and 8 (thorough 40) "
              "quiche clients complete a QUIC handshake (after the endpoint's stateless retry): the client random the endpoint hands to "
              "its connection rules (recorded by the door in Core::evaluate_connection_rules) must be bytes 11..43 of what the TCP "
-             "client sent, and SSL_get_client_random of the QUIC client's own handshake",
+             "client sent, and SSL_get_client_random of the QUIC client's own handshake; 14 (thorough 30) rustls clients whose ClientHello "
+             "message is spread over two TLS records (cut inside the handshake header, inside and right after the random, later): the "
+             "rules must be given the true random or none (`None`, so that random rules fail closed) - never another value",
         explanation="theorems extract_exact, prefix_needs_more, found_is_the_field, loop_segmentation_invariant, "
                     "loop_absent_never_wrong, loop_conserves, replay_transparent/complete about TT/Model/ClientHello.lean",
         trusted=["tls-parser 0.12 record/handshake/ClientHello walk as transcribed; exactness claimed for records whose first handshake "
@@ -919,7 +930,9 @@ PROPS = {
              "bytes delivered than the origin produced; the over-long and bodiless classes are also answered by the C17 model",
         explanation="theorems udp_stream_no_panic, udp_step_safe, icmp_request_decoder_safe, ip_header_skipping_safe, icmp_packets_safe, "
                     "client_hello_prebuffer_bounded, h1_head_bounded_and_progress, socks_udp_datagram_safe, socks_truncated_reply_is_error, "
-                    "rules_malformed_safe (TT/Props/C09.lean, built on the C04/C06/C08/C11/C12/C15 theorems)",
+                    "rules_malformed_safe, forwarded_sink_never_spins / _consumes / _failure_is_final (every write of the plain-HTTP response "
+                    "path strictly decreases unsent bytes + acceptance-script entries in every reachable state) "
+                    "(TT/Props/C09.lean, built on the C04/C06/C08/C11/C12/C15 theorems and TT/Lemmas/Fwd.lean)",
         trusted=["third-party parsers run as black boxes under catch_unwind only: httparse, tls-parser, toml_edit, ipnet, hex, base64",
                  "the origin-response parser of http_forwarded_stream.rs is modelled under C17 (TT/Model/Fwd.lean); here its hostile-input classes are "
                  "run for panics / busy loops / amplification, and only the well-framed-but-over-long ones are compared with that model",
@@ -945,7 +958,7 @@ PROPS = {
     ),
     "C10": dict(
         retry_on_failure=True,
-        suites=["c10", "c10h3"],
+        suites=["c10", "c10h3", "c10socks"],
         judge=judge_c10,
         level="proof",
         rule='sessions over the real Http1Codec (1 request) and Http2Codec (1-3, thorough 1-5 concurrent streams) on in-memory transports through the real Core::on_tunnel_request / Tunnel / HttpDownstream with a scripted forwarder injected at Core::make_forwarder: authenticator {none, registry of 2 clients, scripted accepting one token and one SNI}, SNI credentials {none, accepted, rejected}, methods {CONNECT, GET, POST, OPTIONS, HEAD}, 19 authorities (reserved names, look-alikes differing by case / suffix / port, literals v4/v6 with and without port, names with and without port, bad port), 13 Proxy-Authorization forms (absent, two valid, wrong password / user, Bearer, lower-case scheme, no space, bad base64, non-UTF-8, empty, empty token, trailing space), 13 connect outcomes (ok, refused, unreachable, timed out, 310, 311, resolver failure, EMFILE, other, upstream auth failure, completion at D-1 / D / D+1 ms under the paused clock), UDP/ICMP multiplexer failures; per request status, X-Warning code, challenge, X-Adguard-Vpn-Error and the multiset of forwarder calls are compared with the Lean session model'
@@ -953,8 +966,11 @@ PROPS = {
              "127.0.0.1, private, link-local, CGNAT edges, ULA, documentation, IPv4-mapped, multicast, global) and 9 scripted resolver "
              "answers x both policies x IPv6 on/off, refusal code and X-Adguard-Vpn-Error compared with the C03 decision carried "
              "through the generated tables."
+             " Plus 90 CONNECTs (names, IPv4 and IPv6 literals, HTTP/1.1 and HTTP/2) through the real SOCKS5 forwarder (suite c10socks, real "
+             "sockets) whose loopback upstream answers the request with every reply code 0..9, with REP bytes that are none (0x10, 0x7f, "
+             "0xff), with a reply of version 4, or closes: exactly one final response, status and warning compared with socksOutcome."
              " HTTP/3 part (suite c10h3, wall clock): 150 (thorough 1200) sessions of 1-3 concurrent request streams through the real Core::listen on a loopback UDP port (QUIC multiplexer, HTTP/3 codec, Tunnel, HttpDownstream; quiche client of the harness; SNI credentials travel as <credentials>.localhost in the QUIC ClientHello), same authenticators, authorities, Proxy-Authorization forms and immediate connect outcomes, same query format and model",
-        explanation="theorems exactly_one_final, codes_documented, outcome_codes, connect_result, reserved_never_resolved, "
+        explanation="theorems exactly_one_final, codes_documented, outcome_codes, socks_upstream_codes, connect_result, reserved_never_resolved, "
                     "lookalikes_are_hosts, connect_without_port_refused, health_and_mux_accepted about TT/Model/Dispatch.lean with "
                     "statusOf / warnOf / reserved names regenerated from http_downstream.rs on every run",
         trusted=["authority parsing (http::uri::Authority::port_u16 / host, SocketAddr::from_str): the parsed view is a model input",
